@@ -60,10 +60,11 @@ def run (j : Json) : Json :=
     obj [("L", optJ r.argmax),
          ("S", toJson (dense.map (fun row => (row.findIdx? (fun x => x == Model.maxOf row)).getD 0)))]
   | "col_any" =>    -- the model works on boolean run values (the implementation's astype(bool))
-    let rb : RL2 Bool := ⟨r.indices, r.values.map (·.map (· != 0)), r.rowLen⟩
+    let thr := fldInt j "thr"     -- the harness calls (rl > thr).any(axis=0): same run boundaries, boolean values
+    let rb : RL2 Bool := ⟨r.indices, r.values.map (·.map (fun v => decide (v > thr))), r.rowLen⟩
     let ncols := (dense.head?.map List.length).getD (r.rowLen.getD 0)
     obj [("L", optJ (rb.colAny.map RLA.decode)),
-         ("S", toJson ((List.range ncols).map (fun c => dense.any (fun row => (row[c]?.getD 0) != 0))))]
+         ("S", toJson ((List.range ncols).map (fun c => dense.any (fun row => decide ((row[c]?.getD 0) > thr)))))]
   | "col_sum" => obj [("L", rlaDec r.colSum), ("S", toJson (Spec.colSum dense))]
   | "col_counts" => obj [("L", rlaDec r.colCounts), ("S", toJson (Spec.colCounts dense))]
   | "ravel" => obj [("L", rlaDec r.ravel), ("S", toJson dense.flatten)]
